@@ -660,6 +660,93 @@ class Gen:
                 forms.append(self.toplevel_expr(d))
         return forms
 
+    # ---- histories: several evaluation units on one engine
+    def history(self, nunits=None, depth=None):
+        """Units are evaluated one after the other on one engine.  Later units redefine globals and
+        functions that earlier compiled functions call, assign globals with set!, and call earlier
+        functions.  Within a unit the definitions come first (a run-time error aborts the rest of the
+        unit, so every name a unit defines is initialised unless the defining expression itself fails)."""
+        r = self.rng
+        self.globals = {}
+        self.funcs = {}
+        self.mutable = set()
+        self.local_mut = set()
+        n = nunits or r.choice([3, 4, 6, 8])
+        d = depth or r.choice([2, 3])
+        units = []
+        for ui in range(n):
+            defs, exprs = [], []
+            defined_here = set()
+            # redefinitions first: the defining expression of a top-level define may only mention globals
+            # whose (re)definition in this unit has already been evaluated ("cannot reference an identifier
+            # before its definition" is a compile-time error of the whole unit)
+            nre = r.choice([0, 0, 1, 2]) if ui >= 1 else 0
+            for _ in range(nre):
+                k = r.random()
+                if k < 0.5 and self.globals:
+                    cands = [x for x in self.globals if x not in defined_here]
+                    if cands:
+                        x = r.choice(cands)
+                        env = {y: t for y, t in self.globals.items() if y != x}
+                        defs.append(("define", x, self.safe_expr(self.globals[x], d, env)))
+                        defined_here.add(x)
+                        self.stat("redefine-var")
+                elif self.funcs:
+                    cands = [f for f in self.funcs if f not in defined_here]
+                    if cands:
+                        f = r.choice(cands)
+                        ats, rt, var = self.funcs[f]
+                        if not var:
+                            ps = [self.fresh("a") for _ in ats]
+                            env = dict(self.globals)
+                            env.update(dict(zip(ps, ats)))
+                            defs.append(("define", f, ("lam", ps, None, [self.expr(rt, d, env)])))
+                            defined_here.add(f)
+                            self.stat("redefine-fn")
+            for _ in range(r.randint(1, 3)):
+                if r.random() < 0.55:
+                    before = dict(self.globals)
+                    form = self.toplevel_define_var(d)
+                    form = ("define", form[1], self.safe_expr(self.globals[form[1]], d, before))
+                    defs.append(form)
+                    defined_here.add(form[1])
+                else:
+                    form = self.toplevel_define_fn(d)
+                    defs.append(form)
+                    defined_here.add(form[1])
+            for _ in range(r.randint(1, 4)):
+                exprs.append(self.toplevel_expr(d))
+            if ui >= 1 and r.random() < 0.12:
+                # assign (set!) a global FUNCTION defined by an earlier unit, then keep calling its callers
+                cands = [f for f, (ats, rt, var) in self.funcs.items() if not var and f not in defined_here]
+                if cands:
+                    f = r.choice(cands)
+                    ats, rt, var = self.funcs[f]
+                    ps = [self.fresh("a") for _ in ats]
+                    env = dict(self.globals)
+                    env.update(dict(zip(ps, ats)))
+                    saved = self.funcs
+                    self.funcs = {}          # the new body calls no global function (no accidental recursion)
+                    body = self.expr(rt, d, env)
+                    self.funcs = saved
+                    exprs.insert(0, ("begin", [("set", f, ("lam", ps, None, [body])), I(0)]))
+                    self.stat("assign-function-later")
+            units.append(defs + exprs)
+        return units
+
+    def safe_expr(self, ty, d, env):
+        """An expression whose evaluation cannot fail (used for defining expressions in histories)."""
+        r = self.rng
+        if ty == "int":
+            vs = self.vars_of(env, "int")
+            a = V(r.choice(vs)) if vs and r.random() < 0.5 else self.lit("int")
+            return A(r.choice(["+", "-", "*", "max"]), a, self.lit("int"))
+        if ty == "ilist":
+            vs = self.vars_of(env, "ilist")
+            return A("cons", self.lit("int"), V(r.choice(vs))) if vs and r.random() < 0.5 else self.lit("ilist")
+        return self.lit(ty)
+
+
 # ----------------------------------------------------------------------------- shrinking (delta debugging)
 
 EXPR_TAGS = {"int", "bool", "str", "sym", "void", "char", "quote", "var", "lam", "app", "if", "set", "begin", "let",
